@@ -163,6 +163,16 @@ Theorem C18_softqueue_front_value_and_index :
         snd r = Z.of_nat (ls_done V (fst (lsoft_run V zero eqb (lsoft_new V) ops))))).
 Proof. intros V zero eqb. apply sq_front_answer. Qed.
 
+(** Contains (which by design also sees the dequeued values) returns -1 iff no value ever enqueued
+    is [eqb]-equal to the argument, and otherwise the first position in Values() holding one. *)
+Theorem C18_softqueue_contains_first_position :
+  forall (V : Type) (eqb : V -> V -> bool) (q : softq V) (v : V),
+    (sq_contains V eqb q v = -1 /\ forallb (fun x => negb (eqb x v)) (sq_values V q) = true) \/
+    (exists k x, sq_contains V eqb q v = Z.of_nat k /\
+                 nth_error (sq_values V q) k = Some x /\ eqb x v = true /\
+                 forallb (fun y => negb (eqb y v)) (firstn k (sq_values V q)) = true).
+Proof. intros V eqb. apply sq_contains_first_position. Qed.
+
 (** * Non-vacuity *)
 
 (** The D18 witness on the model of the fixed code: block size 2,
@@ -209,3 +219,4 @@ Print Assumptions C18_stack_observers.
 Print Assumptions C18_softqueue_refines.
 Print Assumptions C18_softqueue_enqueue_index_is_stable.
 Print Assumptions C18_softqueue_front_value_and_index.
+Print Assumptions C18_softqueue_contains_first_position.
